@@ -184,6 +184,14 @@ CONT1 = {
     "nd_row": ("ndarray", False),
     "nd_2xk": ("ndarray", False),
     "nd_3d": ("ndarray", False),
+    # the same 2 x k block in other memory layouts and as nested sequences (a 2-tuple of rows is data, not a (name, data) pair)
+    "nd_2xk_F": ("ndarray_layout", False),
+    "nd_kx2_T": ("ndarray_layout", False),
+    "nd_2xk_strided": ("ndarray_layout", False),
+    "tuple_2tuples": ("nested_seq", False),
+    "tuple_2lists": ("nested_seq", False),
+    "tuple_2arrays": ("nested_seq", False),
+    "list_2tuples": ("nested_seq", False),
     "pd_series": ("pandas_series", False),
     "pd_named": ("pandas_series", True),
     "pd_int": ("pandas_series", True),
@@ -220,6 +228,22 @@ WCONT_EXTRA = [
 ]
 
 
+BLOCK2 = ("nd_2xk", "nd_2xk_F", "nd_kx2_T", "nd_2xk_strided", "tuple_2tuples", "tuple_2lists", "tuple_2arrays", "list_2tuples")
+
+
+def layout(block, cont):
+    """The 2 x k block `block` (C order) with the same logical contents in another memory layout."""
+    if cont == "nd_2xk_F":
+        return np.asfortranarray(block)
+    if cont == "nd_kx2_T":
+        return np.ascontiguousarray(block.T).T
+    if cont == "nd_2xk_strided":
+        big = np.zeros((2, 2 * block.shape[1]), dtype=block.dtype)
+        big[:, ::2] = block
+        return big[:, ::2]
+    return block
+
+
 class Src1:
     """One data tuple and (memoised) containers built from it."""
 
@@ -246,7 +270,7 @@ class Src1:
             return False
         if cont == "pd_Int64" and not self.integral:
             return False
-        if cont == "nd_2xk" and (self.n < 2 or self.n % 2):
+        if cont in BLOCK2 and (self.n < 2 or self.n % 2):
             return False
         if wcont != "array" and (wmode is None or self.n == 0):
             return False  # an empty list / Series of weights carries no integer dtype: no equivalent array
@@ -254,7 +278,9 @@ class Src1:
 
     def shape(self, cont):
         n = self.n
-        return {"nd_col": (n, 1), "nd_row": (1, n), "nd_2xk": (2, n // 2), "nd_3d": (1, n, 1)}.get(cont)
+        if cont in BLOCK2:
+            return (2, n // 2)
+        return {"nd_col": (n, 1), "nd_row": (1, n), "nd_3d": (1, n, 1)}.get(cont)
 
     def weights(self, wmode, wcont, cont):
         if wmode is None:
@@ -264,7 +290,7 @@ class Src1:
         w = np_weights(wmode, self.n)
         shp = self.shape(cont)
         if shp is not None:
-            return w.reshape(shp)
+            return layout(w.reshape(shp), cont)
         if wcont == "array":
             return w
         if wcont == "list":
@@ -370,6 +396,23 @@ def call_c1(src, cont, bins, wmode, wcont, dropna, kwname):
         return call(h1, np.array(d, dtype=np.float32), *bargs, **kw)
     if cont in ("nd_col", "nd_row", "nd_2xk", "nd_3d"):
         return call(h1, src.arr().reshape(src.shape(cont)), *bargs, **kw)
+    if cont in ("nd_2xk_F", "nd_kx2_T", "nd_2xk_strided"):
+        block = layout(src.arr().reshape(src.shape(cont)), cont)
+        if w is not None and cont == "nd_2xk_F":
+            kw["weights"] = np.ascontiguousarray(kw["weights"])  # data and weights laid out differently
+        return call(h1, block, *bargs, **kw)
+    if cont in ("tuple_2tuples", "tuple_2lists", "tuple_2arrays", "list_2tuples"):
+        k = src.n // 2
+        rows = (d[:k], d[k:])
+        if cont == "tuple_2tuples":
+            value = (tuple(rows[0]), tuple(rows[1]))
+        elif cont == "tuple_2lists":
+            value = (list(rows[0]), list(rows[1]))
+        elif cont == "tuple_2arrays":
+            value = (np.array(rows[0], dtype=float), np.array(rows[1], dtype=float))
+        else:
+            value = [tuple(rows[0]), tuple(rows[1])]
+        return call(h1, value, *bargs, **kw)
     if cont in ("pd_series", "pd_named", "pd_int", "pd_Int64", "pd_Float64", "pd_index"):
         return call(h1, src.pd_series(cont), *bargs, **kw)
     if cont == "pd_acc_h1":
@@ -460,7 +503,7 @@ def eval_c1(case, src=None):
 CORE1 = [
     ("list", "array"), ("iter", "array"), ("nd_2xk", "array"), ("pd_named", "array"), ("pd_Int64", "array"), ("pd_index", "array"),
     ("pd_acc_h1", "array"), ("pd_df_h1", "array"), ("pd_df_h1", "column"), ("pd_df_hist_str", "array"), ("pl_series", "array"),
-    ("pl_ns_h1", "array"), ("pd_named", "pd_series"), ("pl_series", "pl_series"),
+    ("pl_ns_h1", "array"), ("pd_named", "pd_series"), ("pl_series", "pl_series"), ("nd_2xk_F", "array"), ("nd_kx2_T", "array"), ("tuple_2tuples", "array"),
 ]
 
 
@@ -532,6 +575,7 @@ CONTND = {
     "h:list_of_arrays": ("h", "seq", False, False),
     "h:np_int": ("h", "ndarray", False, True),
     "h:np_f32": ("h", "ndarray", False, True),
+    "h:np_F": ("h", "ndarray_layout", False, True),
     "h:pd_df": ("h", "frame", True, True),
     "h:pd_df_defaultcols": ("h", "frame", None, True),
     "h:pd_df_int": ("h", "frame", True, True),
@@ -551,6 +595,7 @@ CONTND = {
     "h2:gens": ("h2", "seq", False, True),
     "h2:mixed": ("h2", "seq", False, True),
     "h2:np_int": ("h2", "ndarray", False, True),
+    "h2:nd_mixed_layout": ("h2", "ndarray_layout", False, True),
     "h2:pd_series": ("h2", "pandas_series", True, True),
     "h2:pd_series_unnamed": ("h2", "pandas_series", False, True),
     "h2:pd_series_Int64": ("h2", "pandas_series", True, True),
@@ -681,6 +726,8 @@ def call_nd(src, cont, bins, wmode, dropna, kwname):
         return call(h, a.astype(np.int64), *bargs, **kw)
     if cont == "h:np_f32":
         return call(h, a.astype(np.float32), *bargs, **kw)
+    if cont == "h:np_F":
+        return call(h, np.asfortranarray(a), *bargs, **kw)
     if cont in ("h:pd_df", "h:pd_df_defaultcols", "h:pd_df_int", "h:pd_df_Int64", "h:pd_df_index"):
         return call(h, src.pd_df(name), *bargs, **kw)
     if cont == "h:pd_acc_histogram":
@@ -716,6 +763,12 @@ def call_nd(src, cont, bins, wmode, dropna, kwname):
         return call(h2, x.tolist(), y.copy(), *bargs, **kw)
     if cont == "h2:np_int":
         return call(h2, x.astype(np.int64), y.astype(np.int64), *bargs, **kw)
+    if cont == "h2:nd_mixed_layout":
+        # two-dimensional columns with the same logical contents, x in Fortran and y in C order
+        shp = (2, src.n // 2) if (src.n >= 2 and src.n % 2 == 0) else (src.n, 1)
+        x2 = np.asfortranarray(np.ascontiguousarray(x).reshape(shp))
+        y2 = np.ascontiguousarray(y).reshape(shp)
+        return call(h2, x2, y2, *bargs, **kw)  # weights stay flat: one per (logical, row-major) position
     if cont in ("h2:pd_series", "h2:pd_series_unnamed", "h2:pd_series_Int64"):
         import pandas as pd
 
